@@ -32,7 +32,11 @@ Fixpoint run_env (J : job) (E : env) (s : sys) (ls : list label) : option sys :=
   | l :: ls' => match exec J E s l with Next (s', []) => run_env J E s' ls' | _ => None end
   end.
 
-Fixpoint replay (J : job) (E : env) (s : sys) (rs : list round) : option sys :=
+(* the observable progress predicate the C03 theorems assume of the assignment heuristic *)
+Definition assign_progress_b (c : cstate) : bool :=
+  bool_decide (computable c = ∅) || bool_decide (ongoing_total c ≠ ∅).
+
+Fixpoint replay (strict : bool) (J : job) (E : env) (s : sys) (rs : list round) : option sys :=
   match rs with
   | [] => Some s
   | r :: rs' =>
@@ -40,18 +44,19 @@ Fixpoint replay (J : job) (E : env) (s : sys) (rs : list round) : option sys :=
       match run_ctl J E s (r_ctl r) (r_cmds r) with
       | None => None
       | Some s1 =>
+          if strict && negb (assign_progress_b (ctl s1)) then None else
           if negb (Bool.eqb (has_awaitable J (ctl s1)) (r_waited r)) then None else
           match run_env J E s1 (r_env r) with
           | None => None
-          | Some s2 => replay J E s2 rs'
+          | Some s2 => replay strict J E s2 rs'
           end
       end
   end.
 
 (* ended = the real run returned normally after the last round *)
-Definition check_trace (J : job) (E : env) (rs : list round) (ended : bool)
+Definition check_trace (strict : bool) (J : job) (E : env) (rs : list round) (ended : bool)
            (outs : list (ds * option ds)) : bool :=
-  match replay J E (init J E) rs with
+  match replay strict J E (init J E) rs with
   | None => false
   | Some s => if ended then negb (loop_guard J s) && bool_decide (map_to_list (outputs (ctl s)) ≡ₚ outs) else true
   end.
@@ -62,6 +67,7 @@ Inductive dbg :=
 | DGuard (r : nat)
 | DCtl (r k : nat) (l : label) (model : res (list cmd))
 | DWait (r : nat) (model : bool)
+| DProgress (r : nat)
 | DEnv (r k : nat) (l : label)
 | DEnd (model_guard : bool) (outs : list (ds * option ds)).
 
@@ -83,7 +89,7 @@ Fixpoint dbg_env (J : job) (E : env) (s : sys) (ls : list label) (r k : nat) : s
   | l :: ls' => match exec J E s l with Next (s', []) => dbg_env J E s' ls' r (S k) | _ => inr (DEnv r k l) end
   end.
 
-Fixpoint dbg_replay (J : job) (E : env) (s : sys) (rs : list round) (r : nat) : sys + dbg :=
+Fixpoint dbg_replay (strict : bool) (J : job) (E : env) (s : sys) (rs : list round) (r : nat) : sys + dbg :=
   match rs with
   | [] => inl s
   | rd :: rs' =>
@@ -91,16 +97,17 @@ Fixpoint dbg_replay (J : job) (E : env) (s : sys) (rs : list round) (r : nat) : 
       match dbg_ctl J E s (r_ctl rd) (r_cmds rd) r 0 with
       | inr d => inr d
       | inl s1 =>
+          if strict && negb (assign_progress_b (ctl s1)) then inr (DProgress r) else
           if negb (Bool.eqb (has_awaitable J (ctl s1)) (r_waited rd)) then inr (DWait r (has_awaitable J (ctl s1))) else
           match dbg_env J E s1 (r_env rd) r 0 with
           | inr d => inr d
-          | inl s2 => dbg_replay J E s2 rs' (S r)
+          | inl s2 => dbg_replay strict J E s2 rs' (S r)
           end
       end
   end.
 
-Definition dbg_trace (J : job) (E : env) (rs : list round) (ended : bool) (outs : list (ds * option ds)) : dbg :=
-  match dbg_replay J E (init J E) rs 0 with
+Definition dbg_trace (strict : bool) (J : job) (E : env) (rs : list round) (ended : bool) (outs : list (ds * option ds)) : dbg :=
+  match dbg_replay strict J E (init J E) rs 0 with
   | inr d => d
   | inl s => if ended then
                (if negb (loop_guard J s) && bool_decide (map_to_list (outputs (ctl s)) ≡ₚ outs) then DOk
